@@ -287,18 +287,36 @@ func TestEngineCpc(t *testing.T) {
 		p.Emit(fmt.Sprintf("cgen v=1 wl=%s e=%d st=%d bond=0", wlString(wlIDs), b01(e), b01(stk))+tail, "ok "+dump(cand))
 		done++
 		nops := 8 + r.Intn(25)
+		// directed (every other epoch with a whitelist): a whitelisted sender deploys an ERC-20 contract for a denomination,
+		// the contract is disabled, the same sender deploys for the same denomination again (one per denomination, disabled or not)
+		forced := []int{}
+		forceSi, forceDi, forceDisableID := -1, -1, -1
+		if len(wlIDs) > 0 && r.Chance(1, 2) {
+			forced = []int{0, 99, 0}
+			forceSi, forceDi = wlIDs[r.Intn(len(wlIDs))], hx.Pick(r, []int{0, 1, 3})
+			p.Count("cpc:directed-redeploy-after-disable")
+		}
 		for j := 0; j < nops && done < n; j++ {
 			cctx, write := ctx.CacheContext()
 			var op, out string
-			switch k := r.Intn(100); {
+			k := r.Intn(100)
+			isForced := false
+			if len(forced) > 0 {
+				k, forced = forced[0], forced[1:]
+				isForced = true
+			}
+			switch {
 			case k < 40: // deploy ERC-20
 				si := r.Intn(nDeployers)
 				di := r.Intn(len(denoms))
+				if isForced {
+					si, di = forceSi, forceDi
+				}
 				req := &cpctypes.MsgDeployErc20ContractRequest{Authority: deployerAddr(si), Name: "Tok" + strings.ReplaceAll(strings.ReplaceAll(denoms[di], " ", ""), "!", ""), Symbol: "TK", Decimals: uint32(1 + r.Intn(18)), MinDenom: denoms[di]}
-				if r.Chance(1, 10) {
+				if r.Chance(1, 10) && !isForced {
 					req.Decimals = uint32(hx.Pick(r, []int{0, 19, 255, 256, 262}))
 				}
-				if r.Chance(1, 15) {
+				if r.Chance(1, 15) && !isForced {
 					req.Symbol = ""
 				}
 				mv := req.ValidateBasic() == nil
@@ -329,6 +347,9 @@ func TestEngineCpc(t *testing.T) {
 					write()
 					a := ck.GetErc20CustomPrecompiledContractAddressByMinDenom(ctx, denoms[di])
 					out = fmt.Sprintf("ok:%d", idOfAddr(*a))
+					if isForced {
+						forceDisableID = idOfAddr(*a)
+					}
 					if id := idOfAddr(*a); id >= 2000 && id < 9999 {
 						deployedAt = fmt.Sprintf("caddr %s %d", hex.EncodeToString(cpctypes.CpcModuleAddress.Bytes()), id-2000)
 						deployedIs = hex.EncodeToString(a.Bytes())
@@ -404,6 +425,13 @@ func TestEngineCpc(t *testing.T) {
 					}
 				}
 				dis := r.Bool()
+				if isForced && forceDisableID >= 0 {
+					id, dis = forceDisableID, true
+				} else if isForced {
+					if a := ck.GetErc20CustomPrecompiledContractAddressByMinDenom(ctx, denoms[forceDi]); a != nil {
+						id, dis = idOfAddr(*a), true // the denomination had its contract already
+					}
+				}
 				a := addrOfID(id)
 				var err error
 				if m := ck.GetCustomPrecompiledContractMeta(cctx, a); m != nil {
@@ -445,6 +473,14 @@ func TestEngineCpc(t *testing.T) {
 			require.NoError(t, err)
 			addrs = append(addrs, a)
 		}
+		// the whole supply of three of the denominations is burnt after deployment (positive supply is a condition of
+		// *deploying*; a registered, enabled contract stays exposed whatever the bank supply does later)
+		for i := 0; i < 3; i++ {
+			coins := sdk.NewCoins(sdk.NewInt64Coin(fmt.Sprintf("scale%03d", i*7), 10))
+			require.NoError(t, bk.SendCoinsFromAccountToModule(sctx, c.wallets[0].GetCosmosAddress(), evmtypes.ModuleName, coins))
+			require.NoError(t, bk.BurnCoins(sctx, evmtypes.ModuleName, coins))
+		}
+		p.Count("scale:supply-burnt-to-zero=3")
 		saved := ctx
 		ctx = sctx // callableVia reads `ctx`
 		silent := 0
